@@ -17,7 +17,10 @@ for m in sorted(glob.glob('/verif/seeded/*/meta.json')):
     checks = [pid] if pid in meta['caught_by'] else meta['caught_by'][:1]
     if subprocess.run(['git', '-C', '/repo', 'status', '--short', '--untracked-files=no'], capture_output=True, text=True).stdout.strip():
         print('/repo dirty - abort'); sys.exit(2)
-    if subprocess.run(['git', '-C', '/repo', 'apply', d + '/patch.diff']).returncode != 0:
+    # (a recorded patch whose context was moved by a later fix: commit in /repo is applied with fuzz by patch(1); never --3way, which stages)
+    if subprocess.run(['git', '-C', '/repo', 'apply', d + '/patch.diff'], capture_output=True).returncode != 0 and \
+            subprocess.run(['patch', '-d', '/repo', '-p1', '-s', '-F3', '--no-backup-if-mismatch', '-i', d + '/patch.diff'], capture_output=True).returncode != 0:
+        subprocess.run(['git', '-C', '/repo', 'checkout', '--', '.'])
         out[name] = {'error': 'patch does not apply'}; print(name, 'PATCH DOES NOT APPLY', flush=True); continue
     res = {}
     try:
